@@ -96,8 +96,25 @@ func mutateWire(r *SplitMix, a, b []byte) ([]byte, string) {
 					}
 					tag = "hdr-field-flip"
 				case 4:
-					inner.Arr = append(inner.Arr, nInt(7), nStr("future"))
-					tag = "hdr-extra-elems"
+					if r.Intn(2) == 0 {
+						inner.Arr = append(inner.Arr, nInt(7), nStr("future"))
+						tag = "hdr-extra-elems"
+					} else {
+						k := 3 + r.Intn(len(inner.Arr)-3)
+						if inner.Arr[k].Kind == mpBin {
+							bb := cloneBytes(inner.Arr[k].Bytes)
+							switch r.Intn(3) {
+							case 0:
+								bb = bb[:r.Intn(len(bb)+1)]
+							case 1:
+								bb = append(bb, byte(r.Next()))
+							default:
+								bb = nil
+							}
+							inner.Arr[k] = nBin(bb)
+						}
+						tag = "hdr-field-resize"
+					}
 				case 5:
 					k := r.Intn(len(inner.Arr))
 					inner.Arr[k] = []*mpNode{nNil(), nInt(3), nStr("x"), nArr(), nBool(true)}[r.Intn(5)]
